@@ -640,7 +640,9 @@ def key_of(case, d):
     return f"C07:{d[1]}:{case['cfg']['kind']}:{op}"
 
 
-def shrink(ctx, case, kind, use_driver, max_tries=25):
+def shrink(ctx, case, kind, use_driver, max_tries=25, which=None):
+    if which == "closed-form":          # judged without the driver: cheap, so shrink harder
+        use_driver, max_tries = False, 200
     cur = dict(case)
     ops = list(case["ops"])
     tries = 0
@@ -708,7 +710,7 @@ def run_cases(ctx, cases, ex: Exploration, use_driver: bool, max_findings=4):
         found += 1
         if found > max_findings:
             continue
-        small = shrink(ctx, dict(c, ops=c["ops"][: d[0] + 1]), d[1], use_driver)
+        small = shrink(ctx, dict(c, ops=c["ops"][: d[0] + 1]), d[1], use_driver, which=d[2])
         real2, orc2 = run_real(small), run_oracle(small)
         resp2 = ctx.run_driver(DRIVER, case_lines(small))[1:] if use_driver else None
         d2 = judge(small, real2, resp2, orc2) or d
